@@ -437,3 +437,12 @@ pub fn is_chain_f(f: &F) -> bool {
         F::Map { t, .. } | F::MapErr { t, .. } | F::MapInitErr { t, .. } | F::MapConfig { t, .. } | F::UnitConfig { t, .. } | F::ApplyFn { t, .. } | F::BoxFactory(t) | F::Rc(t) => is_chain_f(t),
     }
 }
+
+pub fn has_transform_f(f: &F) -> bool {
+    match f {
+        F::Leaf { .. } | F::FnCfg { .. } | F::Fn { .. } | F::ApplyCfg { .. } => false,
+        F::Transform { .. } => true,
+        F::AndThen(a, b) => has_transform_f(a) || has_transform_f(b),
+        F::Map { t, .. } | F::MapErr { t, .. } | F::MapInitErr { t, .. } | F::MapConfig { t, .. } | F::UnitConfig { t, .. } | F::ApplyFn { t, .. } | F::BoxFactory(t) | F::Rc(t) | F::ApplyCfgFactory { t, .. } => has_transform_f(t),
+    }
+}
